@@ -108,6 +108,7 @@ class Gen(object):
         self.records = []
         self.enums = []
         self.callbacks = []
+        self.aliases = []      # (name, target basic type)
         self.unions = []
         self.stats = Counter()
 
@@ -173,9 +174,23 @@ class Gen(object):
                 pool.append(('B.Cb', 'BCb'))
         return rng.choice(pool) if pool else None
 
+    def alias(self):
+        """<alias>: not stored in the typelib (nor are its <attribute> children); types naming it resolve to its target"""
+        nm = self.name('Al')
+        target = self.rng.choice(['gint', 'guint8', 'gdouble', 'utf8'])
+        at = self.attrs('      ', force=self.rng.choice([0, 1, 2]))
+        self.out.append(('alias', nm, '    <alias name="%s" c:type="T%s">\n%s      <type name="%s" c:type="%s"/>\n    </alias>\n' % (
+            nm, nm, at, target, 'gchar*' if target == 'utf8' else target)))
+        self.aliases.append((nm, target))
+        self.stats.hit('alias')
+
     def simple_type(self, nested=False):
         rng = self.rng
         r = rng.random()
+        if self.aliases and r < 0.04:
+            nm, _ = rng.choice(self.aliases)
+            self.stats.hit('type:alias')
+            return ('t', nm, rng.choice(['T' + nm, None]), [])
         if r < 0.55:
             nm = rng.choice(['gint', 'guint', 'gboolean', 'gint8', 'guint8', 'gint16', 'guint16', 'gint32', 'guint32',
                              'gint64', 'guint64', 'gfloat', 'gdouble', 'GType', 'gunichar', 'glong', 'gulong', 'gsize',
@@ -421,7 +436,7 @@ class Gen(object):
         if hidden:
             a += self.HIDDEN
             self.stats.hit('hidden:signal')
-        w = rng.choice([None, 'first', 'last', 'cleanup', 'FIRST', 'LAST'])
+        w = rng.choice([None, 'first', 'last', 'cleanup', 'FIRST', 'LAST', 'CLEANUP', 'Cleanup'])
         if w:
             a += ' when="%s"' % w
         for flag, p in (('no-recurse', 0.15), ('detailed', 0.15), ('action', 0.15), ('no-hooks', 0.15), ('deprecated', 0.1)):
@@ -542,6 +557,9 @@ class Gen(object):
             a += ' glib:error-domain="t-%s-quark"' % nm.lower()
         body = self.attrs('      ')
         for i in range(n_values):
+            if rng.random() < 0.08:
+                body += '      <member name="h%d" value="%d" c:identifier="T_%s_H%d" introspectable="0"/>\n' % (i, 1000 + i, nm.upper(), i)
+                self.stats.hit('hidden:member')
             v = rng.choice([i, 1 << i, -1 - i, 2147483647, -2147483648, 4294967295, 255])
             ma = ' name="v%d" value="%d" c:identifier="T_%s_V%d"' % (i, v, nm.upper(), i)
             ma += self.deprecated(0.1)
@@ -580,9 +598,12 @@ class Gen(object):
             for i in range(sections.get('fields', 0)):
                 chunks.append(self.field(ind, emb[i]))
         prop_names = []
+        absent_props = ['no-such-property']
         for i in range(sections.get('properties', 0)):
             if rng.random() < 0.1:
-                chunks.append(self.prop(ind, only_methods, hidden=True)[1])
+                hn, htxt = self.prop(ind, only_methods, hidden=True)
+                absent_props.append(hn)
+                chunks.append(htxt)
             nm, txt = self.prop(ind, only_methods)
             prop_names.append(nm)
             chunks.append(txt)
@@ -593,6 +614,13 @@ class Gen(object):
             methods_txt = methods_txt.replace('<method name="%s"' % target,
                                               '<method name="%s" %s="%s"' % (target, which, rng.choice(prop_names)), 1)
             self.stats.hit('accessor-method')
+        elif only_methods and rng.random() < 0.15:
+            # accessor of a property the typelib does not have (skipped, or never declared): a plain method
+            target = rng.choice(only_methods)
+            which = rng.choice(['glib:get-property', 'glib:set-property'])
+            methods_txt = methods_txt.replace('<method name="%s"' % target,
+                                              '<method name="%s" %s="%s"' % (target, which, rng.choice(absent_props)), 1)
+            self.stats.hit('accessor-of-absent-property')
         chunks.append(methods_txt)
         for i in range(sections.get('signals', 0)):
             if rng.random() < 0.1:
@@ -720,6 +748,9 @@ def gen_gir(rng, ns, obj_combos, ifc_combos, use_base=True, with_boxed=False):
     """One GIR: support entries, then objects/interfaces for the given empty/non-empty section
     combinations (bit masks over OBJ_SECTIONS / IFC_SECTIONS), records, unions, enums, misc."""
     g = Gen(rng, ns, use_base)
+    if rng.random() < 0.3:
+        for _ in range(rng.choice([1, 2])):
+            g.alias()
     # support entries first so that later entries can refer to them
     nm, txt = g.callback('    ')
     g.out.append(('callback', nm, txt))
@@ -792,6 +823,13 @@ class Api(object):
         self.root = ET.fromstring(text)
         self.nsel = self.root.find(q('namespace'))
         self.ns = self.nsel.get('name')
+        # <alias>: not an entry of the typelib (neither are its attributes); a type naming it is its target type
+        self.aliases = {}
+        for al in self.nsel.findall(q('alias')):
+            t = al.find(q('type'))
+            if t is not None and al.get('name'):
+                self.aliases[al.get('name')] = t.get('name')
+                self.aliases['%s.%s' % (self.ns, al.get('name'))] = t.get('name')
         self.lines = []
         self.kinds = {}
         self.bad_bytearray = any(a.get('name') == 'GLib.ByteArray' and not self._is_guint8_array(a)
@@ -910,6 +948,7 @@ class Api(object):
                 self.p('%s.p0 type tag=0 pointer=%s' % (path, '*' if gen else 1))
             return
         name = t.get('name')
+        name = self.aliases.get(name, name)
         ctype = t.get(cq('type'))
         depth = _pointer_depth(ctype)
         if ctx == 'out' and depth > 0:
@@ -975,10 +1014,13 @@ class Api(object):
             optional = 1 if a.get('optional') == '1' else 0
             nullable = 1 if a.get('nullable') == '1' else 0
             if a.get('allow-none') == '1':
-                if gen or d == 'in':
-                    nullable = 1
-                else:
+                # the legacy spelling, read as the scanner means it (giscanner/ast.py Parameter, girwriter.py
+                # _write_parameter; girparser.c start_parameter): optional for an out parameter, nullable for
+                # in and inout parameters.  The text g-ir-generate writes is read by the same rule.
+                if d == 'out':
                     optional = 1
+                else:
+                    nullable = 1
             sc = {'call': 1, 'async': 2, 'notified': 3, 'forever': 4}.get(a.get('scope'), 0)
             sub = '%s.a%d' % (path, j)
             self.p('%s arg name=%s direction=%d retval=%d caller_allocates=%d optional=%d nullable=%d skip=%d transfer=%d scope=%d closure=%s destroy=%s' % (
@@ -997,12 +1039,16 @@ class Api(object):
             flags |= 2
         acc = None
         if e.tag in (q('method'), q('constructor')) and container is not None:
+            # an accessor of a property that is not in the typelib (skipped or unknown) is a plain method
+            props = [p.get('name') for p in self.visible(container, q('property'))]
             if e.get(gq('set-property')) is not None:
-                flags |= 8
-                acc = e.get(gq('set-property'))
+                if e.get(gq('set-property')) in props:
+                    flags |= 8
+                    acc = e.get(gq('set-property'))
             elif e.get(gq('get-property')) is not None:
-                flags |= 4
-                acc = e.get(gq('get-property'))
+                if e.get(gq('get-property')) in props:
+                    flags |= 4
+                    acc = e.get(gq('get-property'))
         if e.get('throws') == '1':
             flags |= 32
         self.p('%s function name=%s deprecated=%d symbol=%s flags=%d' % (
@@ -1092,8 +1138,9 @@ class Api(object):
         self.dump_type(path + '.t', self.type_el(e), 'property')
 
     def dump_signal(self, path, e):
-        w = (e.get('when') or 'LAST').upper()
-        flags = {'LAST': 2, 'FIRST': 1}.get(w, 4)
+        # when: first / last / cleanup in any case, absent = last; any other value sets no run flag
+        w = (e.get('when') if e.get('when') is not None else 'LAST').upper()
+        flags = {'LAST': 2, 'FIRST': 1, 'CLEANUP': 4}.get(w, 0)
         for attr, bit in (('no-recurse', 8), ('detailed', 16), ('action', 32), ('no-hooks', 64)):
             if e.get(attr) == '1':
                 flags |= bit
@@ -1171,7 +1218,7 @@ class Api(object):
 
     def dump_enum(self, path, e):
         gen = self.dialect == 'generate'
-        values = e.findall(q('member'))
+        values = self.visible(e, q('member'))       # <member introspectable="0"> is not in the typelib
         methods = self.functions_of(e)
         tn, ti = self.registered(e)
         self.p('%s enum n_values=%d n_methods=%d storage=* error_domain=%s type_name=%s type_init=%s' % (
